@@ -142,6 +142,10 @@ func (c *Ctl) Unlock()                 { c.mu.Unlock() }
 func (c *Ctl) ChainHeight() uint64     { return Height }
 func (c *Ctl) RootChainHeight() uint64 { return c.rootHeight }
 func (c *Ctl) RootHeightNow() uint64   { return c.rootHeight }
+// SetLastRootUpdated sets CommitteeData.LastRootHeightUpdated as this replica's controller reports it (the root height at which the
+// committee last changed: a proposal built before it is refused)
+func (c *Ctl) SetLastRootUpdated(h uint64) { c.lastRootUpdated = h }
+
 func (c *Ctl) SetRoot(h uint64) {
 	if h > c.rootHeight {
 		c.rootHeight = h
